@@ -143,7 +143,8 @@ def canon_place(B, pl, depth=0, at=None):
                 # several definitions, all of them enum literals (one per arm of the match that chose the variant): behind the downcast
                 # `as V` the value can only be the one built as V
                 ds_ = B.defs().get(base[1], [])
-                if ds_ and all(x[0] == 's' and x[3]['rv']['k'] == 'agg' and x[3]['rv'].get('ak') == 'adt' and 'vi' in x[3]['rv'] for x in ds_) and len({x[3]['rv'].get('adt') for x in ds_}) == 1:
+                if ds_ and all(x[0] == 's' and x[3]['rv']['k'] == 'agg' and x[3]['rv'].get('ak') == 'adt' and 'vi' in x[3]['rv'] for x in ds_) and len({x[3]['rv'].get('adt') for x in ds_}) == 1 \
+                        and not str(ds_[0][3]['rv'].get('adt')).startswith('core::'):      # (Option / Result keep their `x.as:Some.0` form: rules name optional parts that way)
                     pick_ = [x for x in ds_ if 'as:' + str(x[3]['rv'].get('var')) == projs[0]]
                     if len(pick_) == 1 and _never_written_in_part(B, base[1]):
                         d_ = pick_[0]
